@@ -339,4 +339,111 @@ theorem exclLoop_sameBut (a : Str) : ∀ (es : List Str) (p q r r' : Play), Same
           rw [hp] at hq; injection hq with hq; exact hq.symm
         · exact exclLoop_sameBut a es p1 q1 r r' hr1 hp hq ⟨e, he', hpe⟩
 
+/-! ### … and of a direct child of `hosts` / `vars` that the list excludes -/
+
+theorem lookupStr_eraseStr_ne (a c : Str) (h : a ≠ c) :
+    ∀ (p p1 : List (Scalar × PVal)), eraseStr c p = some p1 → lookupStr a p1 = lookupStr a p
+  | [], _, he => by simp [eraseStr] at he
+  | (k, v) :: r, p1, he => by
+    simp only [eraseStr] at he
+    split at he
+    · rename_i hk
+      injection he with he; subst he
+      have : ¬ k = Scalar.str a := by rw [hk]; intro e; injection e with e; exact h e.symm
+      simp [lookupStr, this]
+    · cases hr : eraseStr c r with
+      | none => simp [hr] at he
+      | some r' =>
+        simp [hr] at he; subst he
+        simp only [lookupStr]
+        rw [lookupStr_eraseStr_ne a c h r r' hr]
+
+/-- `q` is `p` except possibly for the value of the child `b` of the mapping stored under `a` -/
+def SameButChild (a b : Str) (p q : Play) : Prop :=
+  q = p ∨ ∃ vs w, lookupStr a p = some (.map vs) ∧ q = setStr a (.map (setStr b w vs)) p
+
+theorem exclStep_sameButChild (a b : Str) (p q p1 q1 : Play) (e : Str) (hr : SameButChild a b p q)
+    (hp : exclStep p e = .ok p1) (hq : exclStep q e = .ok q1) :
+    SameButChild a b p1 q1 ∧ (pathOf e = [a, b] → q1 = p1) := by
+  rcases hr with rfl | ⟨vs, w, hlk, rfl⟩
+  · rw [hp] at hq; injection hq with hq; subst hq; exact ⟨Or.inl rfl, fun _ => rfl⟩
+  · unfold exclStep at hp hq
+    split at hp
+    · rename_i c hpath
+      rw [hpath] at hq
+      simp only at hq
+      refine ⟨?_, fun hh => by rw [hpath] at hh; simp at hh⟩
+      split at hp
+      · rename_i hl
+        simp only [hl, if_true] at hq
+        cases he : eraseStr c p with
+        | none => simp [he] at hp
+        | some r0 =>
+          simp [he] at hp; subst hp
+          by_cases hca : a = c
+          · subst hca
+            rw [eraseStr_setStr_same, he] at hq
+            simp at hq; subst hq
+            exact Or.inl rfl
+          · rw [eraseStr_setStr_ne a c _ hca, he] at hq
+            simp at hq; subst hq
+            exact Or.inr ⟨vs, w, by rw [lookupStr_eraseStr_ne a c hca p _ he]; exact hlk, rfl⟩
+      · cases hp
+    · rename_i c d hpath
+      rw [hpath] at hq
+      simp only at hq
+      split at hp
+      · rename_i hl
+        simp only [hl, if_true] at hq
+        split at hp
+        · rename_i us hlc
+          cases he : eraseStr d us with
+          | none => simp [he] at hp
+          | some us' =>
+            simp [he] at hp; subst hp
+            by_cases hca : a = c
+            · subst hca
+              rw [hlk] at hlc; injection hlc with hlc; injection hlc with hlc; subst hlc
+              rw [lookupStr_setStr_same a _ p _ hlk] at hq
+              simp only at hq
+              by_cases hdb : b = d
+              · subst hdb
+                rw [eraseStr_setStr_same, he] at hq
+                simp at hq; subst hq
+                rw [setStr_setStr_same]
+                exact ⟨Or.inl rfl, fun _ => rfl⟩
+              · rw [eraseStr_setStr_ne b d w hdb, he] at hq
+                simp at hq; subst hq
+                rw [setStr_setStr_same]
+                refine ⟨Or.inr ⟨us', w, lookupStr_setStr_same a _ p _ hlk, ?_⟩, ?_⟩
+                · rw [setStr_setStr_same]
+                · intro hh; rw [hpath] at hh; injection hh with _ hh; injection hh with hh
+                  exact absurd hh.symm hdb
+            · rw [lookupStr_setStr_ne a c _ hca, hlc] at hq
+              simp [he] at hq; subst hq
+              refine ⟨Or.inr ⟨vs, w, ?_, setStr_comm a c _ _ hca p⟩, ?_⟩
+              · rw [lookupStr_setStr_ne c a _ (fun e => hca e.symm)]; exact hlk
+              · intro hh; rw [hpath] at hh; injection hh with hh; exact absurd hh.symm hca
+        · cases hp
+      · cases hp
+    · cases hp
+
+theorem exclLoop_sameButChild (a b : Str) : ∀ (es : List Str) (p q r r' : Play), SameButChild a b p q →
+    exclLoop p es = .ok r → exclLoop q es = .ok r' → (∃ e ∈ es, pathOf e = [a, b]) → r' = r
+  | [], _, _, _, _, _, _, _, ⟨e, he, _⟩ => by simp at he
+  | e0 :: es, p, q, r, r', hr, hp, hq, ⟨e, he, hpe⟩ => by
+    simp only [exclLoop] at hp hq
+    cases hsp : exclStep p e0 with
+    | error y => rw [hsp] at hp; cases hp
+    | ok p1 =>
+      cases hsq : exclStep q e0 with
+      | error y => rw [hsq] at hq; cases hq
+      | ok q1 =>
+        rw [hsp] at hp; rw [hsq] at hq
+        obtain ⟨hr1, heq⟩ := exclStep_sameButChild a b p q p1 q1 e0 hr hsp hsq
+        rcases List.mem_cons.mp he with rfl | he'
+        · have := heq hpe; subst this
+          rw [hp] at hq; injection hq with hq; exact hq.symm
+        · exact exclLoop_sameButChild a b es p1 q1 r r' hr1 hp hq ⟨e, he', hpe⟩
+
 end IV.Playbook
